@@ -1344,6 +1344,59 @@ theorem pipeMaxU8_agrees (o : Cmp UInt8) (ho : IsU8 o) (b : Backend) (C : Nat)
     (maxGeneric_eq_none_iff o C rows f) (pipeMaxU8_spec o ho b C hsup rows f)
     (maxGeneric_spec o ho.total C rows hC f)).eq ho.anti
 
+/-! ### The property in one statement per element type -/
+
+/-- C07 for float `StripedScores` (NaN-free = `Cmp.Total`, `−∞` least), whatever arm the
+    dispatcher takes: `None` exactly on an empty matrix; the maximum is attained and dominates every
+    cell; the arg-maximum is the offset of a cell holding it; thresholding returns exactly the cells
+    `>= t`, each once; the maximum agrees with the generic backend's and the threshold list does
+    not depend on the arm. -/
+theorem c07_striped_f32 (o : Cmp α) (ht : o.Total) (hbot : ∀ v, o.le o.negInf v = true)
+    (arm : Backend) (s : Striped α 32) (hmi : s.maxIndex ≤ 4294967295)
+    (hle : s.data.rows ≤ 4294967296) :
+    (s.maxF32 o arm = none ↔ s.data.rows = 0) ∧
+    (s.argmaxF32 o arm = .ok none ↔ s.data.rows = 0) ∧
+    (∀ v, s.maxF32 o arm = some v → IsMax o s.data.rows 32 (s.cell o) v) ∧
+    (∀ p, s.argmaxF32 o arm = .ok (some p) →
+      ∃ c, HoldsMax o s.data.rows 32 (s.cell o) c ∧ p = c.2 * s.data.rows + c.1) ∧
+    (∀ t, (s.threshold o arm t).Nodup ∧ ∀ p, p ∈ s.threshold o arm t ↔
+      ∃ c : Coord, c.1 < s.data.rows ∧ c.2 < 32 ∧ o.le t (s.cell o c.1 c.2) = true ∧
+        p = c.2 * s.data.rows + c.1) ∧
+    MaxAgree o (s.maxF32 o arm) (maxGeneric o 32 s.data.rows (s.cell o)) ∧
+    (∀ t arm', s.threshold o arm t = s.threshold o arm' t) :=
+  ⟨striped_maxF32_none_iff o arm s, striped_argmaxF32_none_iff o arm s hmi,
+   striped_maxF32_spec o ht arm s, striped_argmaxF32_spec o ht hbot arm s hle,
+   striped_threshold_spec o arm s, dispMaxF32_agrees o ht arm _ _, fun _ _ => rfl⟩
+
+/-- C07 for 8-bit `StripedScores` (at most 65 536 rows, the bound of the AVX2 kernel) -/
+theorem c07_striped_u8 (o : Cmp UInt8) (ho : IsU8 o) (arm : Backend) (s : Striped UInt8 32) :
+    (s.maxU8 o arm = none ↔ s.data.rows = 0) ∧
+    (∀ v, s.maxU8 o arm = some v → IsMax o s.data.rows 32 (s.cell o) v) ∧
+    (∀ p, s.argmaxU8 o arm = .ok (some p) →
+      ∃ c, HoldsMax o s.data.rows 32 (s.cell o) c ∧ p = c.2 * s.data.rows + c.1) ∧
+    (s.data.rows ≤ 65536 → (s.argmaxU8 o arm = .ok none ↔ s.data.rows = 0)) ∧
+    (∀ t, (s.threshold o arm t).Nodup ∧ ∀ p, p ∈ s.threshold o arm t ↔
+      ∃ c : Coord, c.1 < s.data.rows ∧ c.2 < 32 ∧ o.le t (s.cell o c.1 c.2) = true ∧
+        p = c.2 * s.data.rows + c.1) ∧
+    s.maxU8 o arm = maxGeneric o 32 s.data.rows (s.cell o) := by
+  refine ⟨dispMaxU8_none_iff o arm _ _, striped_maxU8_spec o ho arm s,
+    striped_argmaxU8_spec o ho arm s, ?_, striped_threshold_spec o arm s,
+    dispMaxU8_agrees o ho arm _ _⟩
+  intro hrows
+  obtain ⟨_, _, t3, _⟩ := disp_tables
+  simp only [Striped.argmaxU8]
+  cases arm <;> simp only [dispArgmaxU8, kernelOf, t3, Backend.idx, List.getD_cons_zero,
+    List.getD_cons_succ]
+  · simp [argmaxGeneric_eq_none_iff]
+  · simp [argmaxGeneric_eq_none_iff]
+  · split
+    · next e he =>
+      have := (argmaxU8Avx2_panic_iff o _ _).1 ⟨e, he⟩
+      omega
+    · next a ha =>
+      rw [← argmaxU8Avx2_none_iff o s.data.rows (s.cell o), ha]
+      cases a <;> simp
+
 /-! ### Non-vacuity: the hypotheses are satisfiable and the kernels do return something -/
 
 section Examples
@@ -1395,6 +1448,14 @@ example : scoresArgmax natCmp [3, 9, 2, 9, 1] = some 3 ∧ scoresMax natCmp [3, 
     scoresThreshold natCmp [3, 9, 2, 9, 1] 3 = [0, 1, 3] := by decide
 example : HoldsMax natCmp 3 32 demo (2, 9) :=
   argmaxF32Avx2_spec natCmp natCmp_total 96 3 (by decide) demo (2, 9) (by decide +kernel)
+
+-- the bundled statements apply to a concrete `StripedScores` (3 rows, max_index 96)
+example : (⟨Mat.ofFn 3 demo, 96⟩ : Striped Nat 32).argmaxF32 natCmp .avx2 = .ok (some (9 * 3 + 2)) ∧
+    (⟨Mat.ofFn 3 demo, 96⟩ : Striped Nat 32).maxF32 natCmp .sse2 = some 50 ∧
+    (⟨Mat.ofFn 3 demo, 96⟩ : Striped Nat 32).threshold natCmp .generic 11 = [20 * 3 + 1, 9 * 3 + 2] := by
+  decide +kernel
+example : (⟨Mat.ofFn 3 demoU8, 96⟩ : Striped UInt8 32).argmaxU8 u8Cmp .avx2 = .ok (some (20 * 3 + 1)) := by
+  decide +kernel
 
 /-- the padding clause instantiated: scores in `Option Nat` with `none` = −∞ absorbing; motif of
     width 2 over the alphabet {0, 1, wildcard 2}; sequence 0 1 1 0 of length 4 striped in 2 × 3 -/
